@@ -24,6 +24,11 @@ CHECKS = {
    text="Seeded safe Datalog programs executed by all four materialisation strategies of the real Reasoner under a simulated rayon pool (size, job cuts, job order, reduce association), permuted fact and rule order and simulator-owned hash seeds; store compared with a reference least (stratified) model after every execution; a second run must derive nothing.",
    note="Reference model is a naive fixpoint on lexical triples; negation compared only on the provenance strategy (the only one with a negative stratum); sim-rayon models rayon at job granularity.",
    technique="deterministic simulation: simulated thread pool + order/hash perturbation, reference-model comparison"),
+
+ "C19": dict(engine="dlsim", level="exploration", ref="6.14",
+   text="Seeded (facts, constraints, goal) instances, each executed under 8 (quick) / 32 (thorough) simulator-owned hash seeds on fresh OS threads (run-to-run variation = hash iteration order, made exactly replayable through the getrandom seam); query_with_repairs compared with the intersection of answers over all subset-maximal consistent subsets (all subsets enumerated); repair-aware materialisation must end consistent.",
+   note="Constraint violation = premise join non-empty, as violates_constraints does; instances have <= 12 facts so all subsets can be enumerated by the oracle.",
+   technique="deterministic simulation: hash-seed (iteration-order) perturbation with exact replay, brute-force repairs oracle"),
 }
 ENGINES = [
   {"name": "hybsim", "path": "sim/ksim-core/src/hybsim.rs", "serves_properties": ["C08"], "kind_free_text": "lineage/controller simulator under a scripted HybridClock"},
